@@ -15,14 +15,28 @@ open GV GV.Coll
 
 variable (qdt : Option TI) (xi xc qc : Shape → Bool)
 
-theorem filterByDtIval_eq (c : Coll) (i : TI) :
+/-- `intersects` is symmetric on well-formed intervals (so the operand order in the source does not matter) -/
+theorem ti_intersects_symm (a b : TI) (ha : TI.WF a) (hb : TI.WF b) : a.intersects b = b.intersects a := by
+  rw [TI.intersects_eq_not_disjoint a b ha hb, TI.intersects_eq_not_disjoint b a hb ha, TI.isdisjoint_symm a b ha hb]
+
+/-- what the constructors guarantee of every time bound in sight -/
+def TimesWF (c : Coll) : Prop := ∀ x ∈ c.shapes, ∀ d, x.dt = some d → TI.WF d
+
+theorem filterByDtIval_eq (c : Coll) (i : TI) (hc : TimesWF c) (hi : TI.WF i) :
     Src.Coll.filterByDtIval qdt xi xc qc c i = c.filterByDt (.ival i) := by
   simp only [Src.Coll.filterByDtIval, filterByDt, C06Src.intersects_eq]
   congr 1
   apply List.filter_congr
-  intro x _
+  intro x hx
   unfold dtIntersects
-  cases x.dt <;> simp
+  cases hd : x.dt with
+  | none => simp
+  | some d =>
+    have hdw := hc x hx d hd
+    first
+      | simp; done
+      | (simp; exact ti_intersects_symm _ _ (by assumption) (by assumption))
+      | grind [ti_intersects_symm]
 
 theorem filterByDtInst_eq (c : Coll) (t : Int) :
     Src.Coll.filterByDtInst qdt xi xc qc c t = c.filterByDt (.inst t) := by
@@ -49,16 +63,16 @@ theorem filterContains_eq (c : Coll) (q : Unit) :
     Src.Coll.filterContains qdt xi xc qc c q = c.filterContains xc qc := by
   simp only [Src.Coll.filterContains, filterContains]
 
-theorem intersects_eq (c : Coll) (q : Unit) :
+theorem intersects_eq (c : Coll) (q : Unit) (hc : TimesWF c) (hq : ∀ i, qdt = some i → TI.WF i) :
     Src.Coll.intersects qdt xi xc qc c q = c.intersects qdt xi := by
-  simp only [Src.Coll.intersects, Coll.intersects, filterByDtIval_eq]
+  simp only [Src.Coll.intersects, Coll.intersects]
   cases qdt with
-  | none => cases c.shapes.any xi <;> rfl
+  | none => first | rfl | (cases c.shapes.any xi <;> rfl) | grind
   | some i =>
-    simp only
+    simp only [filterByDtIval_eq _ xi xc qc c i hc (hq i rfl)]
     cases c.filterByDt (.ival i) with
-    | error e => rfl
-    | ok c' => simp only; cases c'.shapes.any xi <;> rfl
+    | error e => first | rfl | grind
+    | ok c' => first | rfl | (simp only; cases c'.shapes.any xi <;> rfl) | grind
 
 /-! ### the C18 exactness laws, restated for the translated source -/
 
@@ -66,10 +80,10 @@ theorem src_filterByDt_inst (c : Coll) (hc : WF c) (t : Int) :
     IsFilterOf (fun x => decide (x.dt = some ⟨t, t⟩)) c (Src.Coll.filterByDtInst qdt xi xc qc c t) := by
   rw [filterByDtInst_eq]; exact filterByDt_inst c hc t
 
-theorem src_filterByDt_ival (c : Coll) (hc : WF c) (i : TI) :
+theorem src_filterByDt_ival (c : Coll) (hc : WF c) (i : TI) (ht : TimesWF c) (hi : TI.WF i) :
     IsFilterOf (fun x => match x.dt with | none => false | some d => i.intersects d) c
       (Src.Coll.filterByDtIval qdt xi xc qc c i) := by
-  rw [filterByDtIval_eq]; exact filterByDt_ival c hc i
+  rw [filterByDtIval_eq qdt xi xc qc c i ht hi]; exact filterByDt_ival c hc i
 
 theorem src_filterByIntersection_exact (c : Coll) (hc : WF c) :
     IsFilterOf xi c (Src.Coll.filterByIntersection qdt xi xc qc c ()) := by
